@@ -13,6 +13,7 @@ import (
 	"go.minekube.com/gate/pkg/edition/java/proto/state"
 	"go.minekube.com/gate/pkg/edition/java/proxy/bungeecord"
 	"go.minekube.com/gate/pkg/edition/java/proxy/message"
+	"go.minekube.com/gate/pkg/edition/java/proxy/phase"
 	"go.minekube.com/gate/pkg/edition/java/proxy/zzverif/bfs"
 	"go.minekube.com/gate/pkg/edition/java/proxy/zzverif/vrt"
 	"go.minekube.com/gate/pkg/gate/proto"
@@ -79,10 +80,26 @@ type c25Case struct {
 	Sub       string   `json:"subscriber"` // none | passive | allow | deny : what a PluginMessageEvent subscriber does
 	WriteFail bool     `json:"write_fail"` // the receiving connection rejects writes
 	Existing  int      `json:"existing"`   // channels already registered by this client
+	// Peer: state of the connection(s) the message would be forwarded to / answered on.
+	//   ""              the usual one (connected / in flight, open, in the handler's state)
+	//   "absent"        client handlers: the player has no server connection at all
+	//   "closed"        the receiving connection is closed (writes fail with ErrClosedConn; serverConnection.active()==false)
+	//   "not-play"      client-play: the backend connection is not in the PLAY state yet
+	//   "also-inflight" client-play: besides the current server there is a second, in-flight server connection
+	//   "connected-only" client-config: the server is the player's CURRENT server (re-configuration), nothing in flight
+	Peer string `json:"peer,omitempty"`
+	// ConnType (1.12.2 only): "" vanilla | "forge-new" (legacy Forge client and backend, handshake not started)
+	// | "forge-complete" (handshake complete on both sides) | "forge-transition" (current server in the
+	// IN_TRANSITION phase, a second connection in flight)
+	ConnType string `json:"conn_type,omitempty"`
 }
 
 func (c c25Case) String() string {
-	return fmt.Sprintf("%s modern=%v channel=%q body=%s registrar=%v sub=%s writeFail=%v existing=%d", c.Handler, c.Modern, c.Channel, c.Body, c.Registrar, c.Sub, c.WriteFail, c.Existing)
+	body := c.Body
+	if len(body) > 700 {
+		body = fmt.Sprintf("%s...(%d bytes)", body[:64], len(body)/2)
+	}
+	return fmt.Sprintf("%s modern=%v channel=%q body=%s registrar=%v sub=%s writeFail=%v existing=%d peer=%q connType=%q", c.Handler, c.Modern, c.Channel, body, c.Registrar, c.Sub, c.WriteFail, c.Existing, c.Peer, c.ConnType)
 }
 
 type c25Forward struct {
@@ -113,9 +130,15 @@ type c25Rig struct {
 	protocol proto.Protocol
 	obs      *c25Obs
 	cfgH     *clientConfigSessionHandler
+	backend2 *g7Conn // second (in-flight) backend connection of the also-inflight / forge-transition situations
 }
 
 func c25NewRig(handler string, modern bool, registrar []string, sub string, existing int) *c25Rig {
+	return c25NewRigFor(c25Case{Handler: handler, Modern: modern, Registrar: registrar, Sub: sub, Existing: existing})
+}
+
+func c25NewRigFor(c c25Case) *c25Rig {
+	handler, modern, registrar, sub, existing := c.Handler, c.Modern, c.Registrar, c.Sub, c.Existing
 	r := &c25Rig{w: g7NewWorld(), obs: &c25Obs{}}
 	r.events = r.w.Events
 	r.protocol = g7Legacy
@@ -137,9 +160,20 @@ func c25NewRig(handler string, modern bool, registrar []string, sub string, exis
 	if strings.Contains(handler, "config") {
 		clientState, backendState = state.Config, state.Config
 	}
+	if c.Peer == "not-play" {
+		backendState = state.Config
+	}
 	r.client = g7NewConn("client", r.protocol, clientState)
 	r.backend = g7NewConn("backend", r.protocol, backendState)
+	if c.ConnType != "" {
+		// the player's phase is taken from the connection type when the player object is built
+		r.client.connType = phase.LegacyForge
+		r.backend.connType = phase.LegacyForge
+	}
 	r.player = r.w.player("Alice", uuid.OfflinePlayerUUID("Alice"), r.client, true)
+	if c.ConnType == "forge-complete" {
+		r.player.SetPhase(phase.CompleteLegacyForgeHandshakeClientPhase)
+	}
 	for i := 0; i < existing; i++ {
 		r.player.clientsideChannels.Add(fmt.Sprintf("pre:c%d", i))
 	}
@@ -162,45 +196,82 @@ func c25NewRig(handler string, modern bool, registrar []string, sub string, exis
 		})
 	}
 
+	// current(): the server is the player's CURRENT server; inFlight(): a connection attempt in flight
+	current := func() {
+		if c.Peer == "absent" {
+			return
+		}
+		r.sc = g7Connect(r.player, srv, r.backend)
+		switch c.ConnType {
+		case "forge-new":
+			r.sc.connPhase = phase.NotStartedLegacyForgeHandshakeBackendPhase
+		case "forge-complete":
+			r.sc.connPhase = phase.CompleteLegacyForgeHandshakeBackendPhase
+		case "forge-transition":
+			r.sc.connPhase = phase.InTransitionBackendPhase
+		}
+		if c.Peer == "also-inflight" || c.ConnType == "forge-transition" {
+			srv2 := r.w.server("next", []byte{10, 0, 1, 2}, 25565)
+			r.backend2 = g7NewConn("backend2", r.protocol, state.Play)
+			r.backend2.connType = r.backend.connType
+			sc2 := newServerConnection(srv2, nil, r.player)
+			sc2.connection = r.backend2
+			r.player.mu.Lock()
+			r.player.connInFlight = sc2
+			r.player.mu.Unlock()
+		}
+	}
+	inFlight := func() {
+		if c.Peer == "absent" {
+			return
+		}
+		if c.Peer == "connected-only" {
+			r.sc = g7Connect(r.player, srv, r.backend)
+			return
+		}
+		r.sc = newServerConnection(srv, nil, r.player)
+		r.sc.connection = r.backend
+		if c.ConnType == "forge-new" {
+			r.sc.connPhase = phase.NotStartedLegacyForgeHandshakeBackendPhase
+		}
+		r.player.mu.Lock()
+		r.player.connInFlight = r.sc
+		r.player.mu.Unlock()
+	}
+	defer func() {
+		if c.Peer == "closed" {
+			// the connection dies without anybody having noticed yet (no session handler teardown)
+			r.receiver().cancel()
+		}
+	}()
+
 	switch handler {
 	case "client-play":
-		r.sc = g7Connect(r.player, srv, r.backend)
+		current()
 		h := newClientPlaySessionHandler(r.player)
 		r.client.handler = h
 		r.handler, r.toServer = h, true
 	case "client-config", "client-config-queued":
-		r.sc = newServerConnection(srv, nil, r.player)
-		r.sc.connection = r.backend
-		r.player.mu.Lock()
-		r.player.connInFlight = r.sc
-		r.player.mu.Unlock()
+		inFlight()
 		h := newClientConfigSessionHandler(r.player)
 		r.client.handler = h
 		r.cfgH = h
-		if handler == "client-config" {
+		if handler == "client-config" && r.sc != nil {
 			if err := h.flushQueuedPluginMessagesTo(r.sc); err != nil {
 				panic(err)
 			}
 		}
 		r.handler, r.toServer = h, true
 	case "client-initial":
-		r.sc = newServerConnection(srv, nil, r.player)
-		r.sc.connection = r.backend
-		r.player.mu.Lock()
-		r.player.connInFlight = r.sc
-		r.player.mu.Unlock()
+		inFlight()
 		r.handler, r.toServer = newInitialConnectSessionHandler(r.player), true
 	case "backend-play":
-		r.sc = g7Connect(r.player, srv, r.backend)
+		current()
 		psh := newClientPlaySessionHandler(r.player)
 		r.client.handler = psh
 		r.handler = &backendPlaySessionHandler{serverConn: r.sc, bungeeCordMessageResponder: bungeecord.NopMessageResponder, playerSessionHandler: psh, log: logr.Discard()}
 	case "backend-config":
-		r.sc = newServerConnection(srv, nil, r.player)
-		r.sc.connection = r.backend
-		r.player.mu.Lock()
-		r.player.connInFlight = r.sc
-		r.player.mu.Unlock()
+		inFlight()
 		h, err := newBackendConfigSessionHandler(r.sc, &connRequestCxt{})
 		if err != nil {
 			panic(err)
@@ -239,7 +310,12 @@ func (r *c25Rig) collect() *c25Obs {
 	o.regEvents = g7Fired[*PlayerChannelRegisterEvent](r.events)
 	o.unregEvents = g7Fired[*PlayerChannelUnregisterEvent](r.events)
 	o.forwarded = nil
-	for _, w := range r.receiver().writes {
+	writes := r.receiver().writes
+	if r.toServer && r.backend2 != nil {
+		// whatever reaches ANY backend connection of the player counts as forwarded to "its backend"
+		writes = append(append([]g7Write(nil), writes...), r.backend2.writes...)
+	}
+	for _, w := range writes {
 		switch w.Kind {
 		case "packet", "buffer":
 			if pm, ok := w.Pkt.(*plugin.Message); ok {
@@ -265,12 +341,15 @@ func isRegisterChannel(ch string) bool {
 // c25Check runs one case and applies the oracle of the property statement.
 func c25Check(c c25Case) (fails []c25Fail, class string, o *c25Obs) {
 	body, _ := hex.DecodeString(c.Body)
-	r := c25NewRig(c.Handler, c.Modern, c.Registrar, c.Sub, c.Existing)
+	r := c25NewRigFor(c)
 	if c.WriteFail {
 		r.receiver().writeErr = errG7Write
+		if r.backend2 != nil {
+			r.backend2.writeErr = errG7Write
+		}
 	}
 	r.send(c.Channel, body)
-	if c.Handler == "client-config-queued" {
+	if c.Handler == "client-config-queued" && r.sc != nil {
 		// the backend becomes ready afterwards: the queue is flushed to it
 		if p, v := vrt.Catch(func() { _ = r.cfgH.flushQueuedPluginMessagesTo(r.sc) }); p {
 			r.obs.panicked, r.obs.panicVal = true, v
@@ -340,7 +419,8 @@ func c25Check(c c25Case) (fails []c25Fail, class string, o *c25Obs) {
 					same = append(same, f)
 				}
 			}
-			if !c.WriteFail {
+			// a dead / missing / not-ready receiving side cannot be forwarded to: like a failing write
+			if !c.WriteFail && c.Peer != "closed" && c.Peer != "absent" && c.Peer != "not-play" {
 				switch c.Sub {
 				case "allow", "passive", "none":
 					// a handler that lets the message pass: what is forwarded is what the handler saw
@@ -383,8 +463,85 @@ func c25RegisterPayloads(modern, thorough bool) [][]byte {
 	} else {
 		out = [][]byte{{}, []byte("FML|HS"), []byte("FML|HS\x00FML\x00FORGE"), []byte("MyChan"), []byte("a:b\x00legacyname"), []byte("\x00")}
 	}
+	// one byte more than the longest payload getChannels parses (math.MaxInt16): still forwarded as it is
+	out = append(out, []byte(strings.Repeat("a:b\x00", 8191)+"z:zz"))
 	if thorough {
 		out = append(out, []byte(strings.Repeat("a:b\x00", 40)+"z:z"), bytes.Repeat([]byte("n"), 300))
+	}
+	return out
+}
+
+// c25PeerCases: the receiving side is missing / dead / not ready / doubled (see c25Case.Peer).
+func c25PeerCases() []c25Case {
+	var out []c25Case
+	peers := map[string][]string{
+		"client-play":          {"absent", "closed", "not-play", "also-inflight"},
+		"client-config":        {"absent", "closed", "connected-only"},
+		"client-config-queued": {"absent", "closed", "connected-only"},
+		"client-initial":       {"absent", "closed"},
+		"backend-play":         {"closed"},
+		"backend-config":       {"closed"},
+	}
+	for _, h := range []string{"client-play", "client-config", "client-config-queued", "client-initial", "backend-play", "backend-config"} {
+		for _, modern := range []bool{true, false} {
+			if !modern && strings.Contains(h, "config") {
+				continue
+			}
+			regCh, unregCh, chans := plugin.RegisterChannel, plugin.UnregisterChannel, []string{"my:chan", "unreg:chan"}
+			if !modern {
+				regCh, unregCh, chans = plugin.RegisterChannelLegacy, plugin.UnregisterChannelLegacy, []string{"MyChan", "Unreg"}
+			}
+			for _, peer := range peers[h] {
+				for _, sub := range []string{"none", "allow", "deny"} {
+					for _, ch := range chans {
+						for _, body := range [][]byte{{}, []byte("hello")} {
+							out = append(out, c25Case{Handler: h, Modern: modern, Channel: ch, Body: hex.EncodeToString(body), Registrar: []string{"my:chan", "MyChan"}, Sub: sub, Peer: peer})
+						}
+					}
+					for _, ch := range []string{regCh, unregCh} {
+						for _, body := range c25RegisterPayloads(modern, false)[:5] {
+							for _, wf := range []bool{false, true} {
+								out = append(out, c25Case{Handler: h, Modern: modern, Channel: ch, Body: hex.EncodeToString(body), Registrar: []string{"my:chan"}, Sub: sub, WriteFail: wf, Peer: peer})
+							}
+						}
+					}
+				}
+			}
+		}
+	}
+	return out
+}
+
+// c25ForgeCases: 1.12.2 connections of the legacy-Forge type in the handshake phases (see c25Case.ConnType).
+// The FML|HS bodies start with the handshake discriminators (1 ClientHello, 2 ModList, 0xff Ack, 0 ServerHello).
+func c25ForgeCases() []c25Case {
+	var out []c25Case
+	for _, h := range []string{"client-play", "client-initial", "backend-play"} {
+		for _, ct := range []string{"forge-new", "forge-complete", "forge-transition"} {
+			if ct == "forge-transition" && h != "client-play" {
+				continue // the IN_TRANSITION phase belongs to the player's CURRENT server connection
+			}
+			for _, reg := range [][]string{nil, {"my:chan", "MyChan", "FML|HS"}} {
+				for _, sub := range []string{"none", "allow", "deny"} {
+					for _, wf := range []bool{false, true} {
+						for _, ch := range []string{"MyChan", "Unreg", "FML|HS"} {
+							bodies := [][]byte{{}, []byte("hello")}
+							if ch == "FML|HS" {
+								bodies = [][]byte{{}, {1, 2}, {2, 0}, {0xff, 2}, {0, 2, 0, 0, 0, 0}}
+							}
+							for _, body := range bodies {
+								out = append(out, c25Case{Handler: h, Modern: false, Channel: ch, Body: hex.EncodeToString(body), Registrar: reg, Sub: sub, WriteFail: wf, ConnType: ct})
+							}
+						}
+						for _, ch := range []string{plugin.RegisterChannelLegacy, plugin.UnregisterChannelLegacy} {
+							for _, body := range c25RegisterPayloads(false, false)[:5] {
+								out = append(out, c25Case{Handler: h, Modern: false, Channel: ch, Body: hex.EncodeToString(body), Registrar: reg, Sub: sub, WriteFail: wf, ConnType: ct})
+							}
+						}
+					}
+				}
+			}
+		}
 	}
 	return out
 }
@@ -439,6 +596,8 @@ func c25Cases(thorough bool) []c25Case {
 			}
 		}
 	}
+	out = append(out, c25PeerCases()...)
+	out = append(out, c25ForgeCases()...)
 	return out
 }
 
@@ -549,6 +708,12 @@ func TestVerif(t *testing.T) {
 			fails, class, o := c25Check(c)
 			r.Eval(1)
 			r.Class(c.Handler + ":" + class)
+			if c.Peer != "" {
+				r.Class("peer=" + c.Peer + ":" + class)
+			}
+			if c.ConnType != "" {
+				r.Class("conn=" + c.ConnType + ":" + c.Handler + ":" + class)
+			}
 			if len(o.pluginEvents)+len(o.regEvents) > 0 {
 				r.Nontrivial(1)
 			}
